@@ -194,6 +194,30 @@ CHECKS = {
 
 NOT_YET = "check not built yet in this session (planned, see DESIGN.md section 3); no claim is made"
 
+# what later rounds added to a check (DESIGN 8.8-8.9); appended to the level text
+ADDENDA = {
+    "C01": "Flat (depth-2) gathers with a two-digit inner index under explicit arrival orders.",
+    "C05": "Catalogue program `dotjob`: a scattered list dot-combined with one that arrives through 11-12 scattered jobs.",
+    "C07": "Catalogue program `dotjob` as in C05.",
+    "C08": "Incremental save: ports attached to already persisted steps and a new step, saved again, reloaded and deep-copied.",
+    "C10": "Three-level stacked deployments (wrapper in wrapper on hosts) reserve at every level.",
+    "C12": "Two deployments sharing one location (two wrappers on one host; host and wrapper), each job bound to one of them.",
+    "C13": "Two-job histories: the same placement question after an earlier job of the same step with other input values went "
+           "through the same filter instances; chains of two input-dependent matching filters.",
+    "C15": "Bindings that fix only some of the three job directories.",
+    "C18": "A second site with its own storage: read-only transfers leave related physical replicas; a producer whose every "
+           "output kept a replica must not be re-executed.",
+    "C19": "Consumers that fail twice (loss of the producer's current output only) under retry budgets 4 and 12; two consumers of "
+           "a gathered list failing together.",
+    "C21": "New paths registered beneath a related (possibly invalidated) directory.",
+    "C23": "Cuts at every multiple of a small transfer buffer inside member data; a cut right after a header counts as in-data.",
+    "C26": "A returning undeploy/undeploy_all request leaves nothing live that was registered when it started (unless pinned by a "
+           "live, in-flight or lazily registered wrapper); thorough: every set of lazy names and every failing name.",
+    "C29": "12-element scatters (two-digit scatter indices) alone and feeding every array consumer; Directory values.",
+    "C30": "Two-digit and negative positions in inputs, arguments and record fields.",
+    "C34": "Directory outputs (three files, one nested), single, scattered and consumed.",
+}
+
 
 def main():
     props = [json.loads(l)["id"] for l in open(os.path.join(ROOT, "properties.jsonl"))]
@@ -202,6 +226,8 @@ def main():
         if pid not in CHECKS:
             continue
         cat, eng, tech, text, note, ref = CHECKS[pid]
+        if pid in ADDENDA:
+            text = text + " Added later: " + ADDENDA[pid]
         checks.append({
             "property_id": pid,
             "quick_cmd": f"./check {pid} --tier quick",
